@@ -217,8 +217,12 @@ AddOption(name, v, q, g, b1, b2, b3, term) ==
   /\ Style # "none" /\ nn < MaxNodes
   /\ name # <<>> /\ NameOK(name, A.opt) /\ NameLex(F, name)
   /\ ValOK(F, v, q) /\ GapOK(F, g)
-  /\ F.as # 0
-  /\ LET body == CatAll(<<GapText(F, g), name, BlankText(b1), C1(F.as), BlankText(b2), ValText(v, q), BlankText(b3)>>)
+  /\ F.as = 0 => /\ Style \in {"sep", "enc", "opt"}                 \* blank as assign character: name BLANK value
+                 /\ \A b \in BytesOf(name) : ~IsSp(b)             \* (the name ends at the first blank)
+  /\ LET blanks == Cat(BlankText(b1), BlankText(b2))
+         assign == IF F.as # 0 THEN CatAll(<<BlankText(b1), C1(F.as), BlankText(b2)>>)
+                   ELSE IF blanks = <<>> THEN B(<<32>>) ELSE blanks
+         body == CatAll(<<GapText(F, g), name, assign, ValText(v, q), BlankText(b3)>>)
          ending == IF F.oe # 0 THEN C1(F.oe)
                    ELSE IF term = "com" THEN ComLine(F, CHOOSE c \in ComChars(F) : TRUE)
                    ELSE C1(10)
